@@ -432,8 +432,9 @@ for _t, _ids in _FUZZ.items():
                                   thorough=dict(workers=5, seconds=1500, seed_programs=_n * 3, max_ops=_ops))
 
 ENGINES = [
-    {"name": "libFuzzer", "path": "/verif/harness", "serves_properties": ["C07"],
-     "kind_free_text": "clang libFuzzer targets fuzz_ovmb / fuzz_ascii with ASan+UBSan and an in-target post-condition"},
+    {"name": "libFuzzer", "path": "/verif/harness", "serves_properties": sorted(["C07"] + [i for ids in _FUZZ.values() for i in ids]),
+     "kind_free_text": "clang libFuzzer with ASan+UBSan: reader targets fuzz_ovmb / fuzz_ascii with an in-target post-condition (C07); "
+                       "fuzz_kernel/queries/tet/hex/copy/registry = the rapidcheck program interpreters and oracles compiled with a libFuzzer entry"},
     {"name": "rapidcheck", "path": "/verif/harness", "serves_properties": sorted(CHECKS.keys()),
      "kind_free_text": "C++ rapidcheck targets over op programs; python driver ./check (workers, ddmin, replay, evidence)"},
 ]
